@@ -253,3 +253,91 @@ pub fn restart(t: &mut Toks) -> String {
     rt.shutdown_background();
     out
 }
+
+/// case: inflight <nrows> <gap_ms>
+///   a real subscription; the REAL change handler loop (handlers::handle_changes, as run_root
+///   starts it) is given one remote version of <nrows> rows; <gap_ms> after the handler has
+///   spawned the batch that applies it the node shuts down
+///   gracefully the way command/agent.rs does (tripwire, the handler's handle awaited,
+///   drop_handles, pending handles awaited); then the process is given time to finish what its
+///   blocking sections were doing, the files are copied and a node is started on them.
+/// obs: applied=<rows of the version in the database at the copy> meta=<state> restored=<0/1>
+///      rows=<matview rows> db=<query rows>  (counts)
+pub fn inflight(t: &mut Toks) -> String {
+    use klukai_agent::agent::verif_hooks::handle_changes;
+    use klukai_types::{actor::ActorId, agent::Bookie, broadcast::ChangeSource};
+    let rt = tokio::runtime::Builder::new_multi_thread().worker_threads(4).enable_all().build().unwrap();
+    let nrows = t.i64();
+    let gap = t.u64();
+    vh::MANUAL.store(false, SeqCst);
+    let out = rt.block_on(async move {
+        let base = tempfile::tempdir().unwrap();
+        let dir = base.path().join("n0");
+        std::fs::create_dir_all(&dir).unwrap();
+        let mut live = start(&dir).await;
+        let agent = live.agent.clone();
+        let sql = normalize_sql(SQL).unwrap();
+        let subs_path = agent.config().db.subscriptions_path();
+        let (handle, created) = agent.subs_manager().get_or_insert(&sql, &subs_path, &agent.schema().read(), agent.pool(), live.tripwire.clone()).unwrap();
+        let mut evt_rx = created.unwrap().evt_rx;
+        let id = handle.id().to_string();
+        let t0 = Instant::now();
+        loop {
+            match tokio::time::timeout(Duration::from_millis(50), evt_rx.recv()).await {
+                Ok(Some(QueryEvent::EndOfQuery { .. })) => break,
+                Ok(Some(_)) => {}
+                _ => if t0.elapsed() > Duration::from_secs(20) { break },
+            }
+        }
+        tokio::spawn(async move { while evt_rx.recv().await.is_some() {} });
+        drop(handle);
+        // the change handler loop, as run_root starts it
+        let bookie = Bookie::new(Default::default());
+        let (tx_dummy, rx_dummy) = klukai_types::channel::bounded(1, "dummy");
+        let _ = tx_dummy;
+        let rx_changes = std::mem::replace(&mut live.opts.rx_changes, rx_dummy);
+        let changes_handle = tokio::spawn(handle_changes(agent.clone(), bookie.clone(), rx_changes, live.tripwire.clone()));
+        let actor = ActorId(uuid::Uuid::from_u128(0xfeed));
+        let changes: Vec<_> = (0..nrows).map(|i| agentkit::mk_change(actor, 1, i as u64, 1000 + i, "remote", 1, 1)).collect();
+        let cv = agentkit::full(actor, 1, changes, 0, (nrows - 1) as u64, (nrows - 1) as u64, 1);
+        agent.tx_changes().send((cv, ChangeSource::Sync)).await.unwrap();
+        // wait until the handler has spawned the batch (it publishes received / queued / in flight)
+        let t2 = Instant::now();
+        while klukai_agent::agent::verif_hooks::VERIF_INGEST_STATE.load(SeqCst) & 0xffff == 0 && t2.elapsed() < Duration::from_secs(20) {
+            tokio::time::sleep(Duration::from_millis(2)).await;
+        }
+        tokio::time::sleep(Duration::from_millis(gap)).await;
+        // ---- graceful shutdown, command/agent.rs
+        let _ = live.tw_tx.send(()).await;
+        let _ = tokio::time::timeout(Duration::from_secs(5), &mut live.worker).await;
+        let _ = tokio::time::timeout(Duration::from_secs(60), changes_handle).await;
+        agent.subs_manager().drop_handles().await;
+        let _ = tokio::time::timeout(Duration::from_secs(10), wait_for_all_pending_handles()).await;
+        // the runtime waits for blocking sections that are still running
+        let mut last = -1i64;
+        let mut stable = 0;
+        let t1 = Instant::now();
+        while stable < 10 && t1.elapsed() < Duration::from_secs(60) {
+            let n: i64 = match agent.pool().read().await { Ok(c) => c.query_row("SELECT COUNT(*) FROM tests WHERE id >= 1000", [], |r| r.get(0)).unwrap_or(-1), Err(_) => -1 };
+            if n == last { stable += 1 } else { stable = 0; last = n; }
+            tokio::time::sleep(Duration::from_millis(50)).await;
+        }
+        let ndir = base.path().join("n1");
+        copy_dir(&dir, &ndir);
+        let meta = meta_state(&ndir, &id);
+        let live2 = start(&ndir).await;
+        tokio::time::sleep(Duration::from_millis(300)).await;
+        let handles = live2.agent.subs_manager().get_handles();
+        let mut line = format!("applied={} meta={} restored={}", last, meta, handles.len());
+        if let Some(h) = handles.values().next() {
+            let (rows, _, _) = sub_state(h).await;
+            let nr = if rows.is_empty() { 0 } else { rows.split(';').count() };
+            let db = db_rows(&live2.agent).await;
+            let nd = if db.is_empty() { 0 } else { db.split(';').count() };
+            line.push_str(&format!(" rows={} db={}", nr, nd));
+        }
+        line
+    });
+    rt.shutdown_background();
+    out
+}
